@@ -12,6 +12,8 @@
  */
 
 #include "cppTBDType.h"
+#include "cppClassTemplateParameter.h"
+#include "cppScope.h"
 #include "cppIdentifier.h"
 
 #include "cppSimpleType.h"
@@ -126,6 +128,34 @@ substitute_decl(CPPDeclaration::SubstDecl &subst,
   CPPType *type = rep->_ident->find_type(current_scope, global_scope, subst);
   if (type != nullptr) {
     result = type;
+
+  } else if (rep->_ident->_names.size() >= 2 &&
+             !rep->_ident->_names[0].has_templ()) {
+    // The name could not be looked into.  If it starts with a template
+    // parameter that is being replaced by a parameter of another template
+    // (P<X> named inside template Q), keep that replacement in the name, so
+    // that it can be resolved when that template is instantiated.
+    CPPScope *scope = rep->_ident->_native_scope;
+    if (scope == nullptr) {
+      scope = current_scope;
+    }
+    CPPType *first = scope->find_type(rep->_ident->_names[0].get_name());
+    SubstDecl::const_iterator si = subst.end();
+    if (first != nullptr) {
+      si = subst.find(first);
+    }
+    if (si != subst.end()) {
+      CPPClassTemplateParameter *param =
+        (*si).second->as_class_template_parameter();
+      if (param != nullptr && param->_ident != nullptr) {
+        CPPIdentifier *ident = new CPPIdentifier(*param->_ident);
+        ident->_native_scope = nullptr;
+        for (size_t i = 1; i < rep->_ident->_names.size(); ++i) {
+          ident->_names.push_back(rep->_ident->_names[i]);
+        }
+        result = CPPType::new_type(new CPPTBDType(ident));
+      }
+    }
   }
 
   subst.insert(SubstDecl::value_type(this, result));
